@@ -137,6 +137,16 @@ theorem C13_progress {σ ε ο : Type} (M : Sys σ ε ο) (s : St σ ε ο) (h :
   progress M s h
 #assert_axioms C13_progress
 
+/-- model completeness: EVERY interleaving of the producers' lists is the dequeue order of some
+schedule that runs to completion — the universal quantifier over schedules in `C13` ranges over
+all interleavings, the transition system does not exclude any -/
+theorem C13_every_merge_is_a_run {σ ε ο : Type} (M : Sys σ ε ο) (ps : List (List ε)) (s0 : σ)
+    (out : List ε) (h : IsMergeOf ps out) :
+    ∃ sched st, run M (init ps s0) sched = some st ∧ complete st ∧ st.deq.map Prod.fst = out := by
+  obtain ⟨sched, st, h1, h2, h3⟩ := every_merge_is_a_run M ps out h (init ps s0) rfl rfl rfl
+  exact ⟨sched, st, h1, h2, by simpa [init] using h3⟩
+#assert_axioms C13_every_merge_is_a_run
+
 /-- the filter of `mainEventLoop`, spelled out: an event is dropped exactly when it is not a
 `done.invoke.` event, carries an invoke id, that id is not the session's own caller id and is
 not the id of a running child -/
